@@ -110,9 +110,9 @@ func (x *FnCtx) step(fr *Frame, st *State, instr ssa.Instruction) {
 			s := x.term(fr, st, in.X)
 			i := x.term(fr, st, in.Index)
 			i = x.toIntSort(i, in.Index.Type())
-			n := tb.UF("str.len", x.intSort(), s)
+			n := tb.UF("gstr.len", x.intSort(), s)
 			x.safetyOb("bounds", fr.prefix+fr.siteOrd[in], st, tb.And(x.le(x.idx(0), i), x.lt(i, n)))
-			v := tb.UF("str.at", x.sortOf(in.Type()), s, i)
+			v := tb.UF("gstr.at", x.sortOf(in.Type()), s, i)
 			x.assumeType(st, v, in.Type())
 			x.setReg(st, in, v)
 			return
@@ -155,7 +155,7 @@ func (x *FnCtx) step(fr *Frame, st *State, instr ssa.Instruction) {
 		fr.defers = append(fr.defers, in)
 		x.deferred(fr, st, in)
 	case *ssa.RunDefers:
-		x.runDefers(fr, st)
+		x.runDefers(fr, st, in.Block())
 	case *ssa.MakeClosure:
 		var bs []Value
 		for _, b := range in.Bindings {
@@ -296,12 +296,12 @@ func (x *FnCtx) sliceOp(fr *Frame, st *State, in *ssa.Slice) Value {
 		return SliceV{Arr: ref, Off: lo, Len: x.isub(hi, lo), Cap: x.isub(mx, lo)}
 	case *types.Basic: // string
 		s := x.term(fr, st, in.X)
-		n := tb.UF("str.len", x.intSort(), s)
+		n := tb.UF("gstr.len", x.intSort(), s)
 		lo := get(in.Low, z)
 		hi := get(in.High, n)
 		x.safetyOb("slice", site, st, tb.And(x.le(z, lo), x.le(lo, hi), x.le(hi, n)))
-		r := tb.UF("str.sub", IntSort, s, lo, hi)
-		x.axiom(tb.Eq(tb.UF("str.len", x.intSort(), r), x.isub(hi, lo)))
+		r := tb.UF("gstr.sub", IntSort, s, lo, hi)
+		x.axiom(tb.Eq(tb.UF("gstr.len", x.intSort(), r), x.isub(hi, lo)))
 		return r
 	}
 	x.abstracted("slice of " + in.X.Type().String())
@@ -579,7 +579,7 @@ func (x *FnCtx) builtin(fr *Frame, st *State, in ssa.Value, name string, args []
 			return a.Cap
 		case *Term:
 			if isString(args[0].Type()) {
-				n := tb.UF("str.len", x.intSort(), a)
+				n := tb.UF("gstr.len", x.intSort(), a)
 				x.axiom(x.le(x.idx(0), n))
 				return n
 			}
